@@ -9,7 +9,7 @@
      text_bytes e text / bom e / with_bom b e text   the encoding schemes (StreamSpec.v)
      encs w text       the code units of a text in width w                 (UtfSpec.v) *)
 From BS Require Import Base UtfSpec UtfModel UtfLemmas StreamIStream StreamSpec StreamModel
-  StreamUnits StreamDetProofs StreamEsrProofs StreamLossless StreamTruncated StreamEswProofs.
+  StreamUnits StreamDetProofs StreamDetAt StreamEsrProofs StreamLossless StreamTruncated StreamEswProofs.
 From BS Require Import StreamPropProofs StreamIllFormed StreamChunks.
 Local Open Scope nat_scope.
 
@@ -63,6 +63,24 @@ Theorem T_C13_detect_stream : forall skip data,
       is_pos s' = (if skip then off else 0).
 Proof. exact detect_stream_spec. Qed.
 Print Assumptions T_C13_detect_stream.
+
+(* the same on a stream the caller has already read p bytes from: the verdict is the one of the 128 bytes that follow the
+   get position, and the stream is left at that position / just behind the BOM found there - relative to where the stream
+   stood, not to its beginning (the instance p = 0 is the theorem above) *)
+Theorem T_C13_detect_stream_at : forall skip data p, (p <= length data)%nat ->
+  exists e off, detect (firstn 128 (skipn p data)) = Ok (e, off) /\
+    exists s', detect_stream skip (stream_at data p) = Ok (e, s') /\
+      is_data s' = data /\ is_eof s' = false /\ is_fail s' = false /\
+      is_pos s' = (p + (if skip then off else 0))%nat.
+Proof. exact detect_stream_at. Qed.
+Print Assumptions T_C13_detect_stream_at.
+
+(* stream_at is what reading p bytes from a fresh seekable stream leaves *)
+Theorem T_C13_stream_at_reachable : forall data p, (p <= length data)%nat ->
+  let s := snd (is_read p (stream_of data true)) in
+  is_data s = data /\ is_pos s = p /\ is_eof s = false /\ is_fail s = false /\ is_seekable s = true.
+Proof. exact read_gives_stream_at. Qed.
+Print Assumptions T_C13_stream_at_reachable.
 
 (* ------------------------------------------------------------------ chunked reading is lossless *)
 
